@@ -13,10 +13,15 @@ def sh(cmd, cwd, stdin=None, timeout=60):
 
 
 SINK_PAYLOADS = [
-    ('payload:lf-then-3000', 'print("x\\n' + 'a' * 3000 + '")'),
-    ('payload:many-lines', 'print("' + ('line\\n' * 40) + '"); print("' + 'b' * 1500 + '")'),
-    ('payload:lf-in-name-and-big-method', 'function f(a) -> begin ' + '; '.join('print("~\\n", a + %d)' % i for i in range(120)) + ' end; f(1)'),
-    ('payload:utf8', 'print("é世😀\\n' + 'é' * 700 + '\\n' + '世' * 500 + '")'),
+    # stdout is line buffered: a 0x0A byte in the image followed by more than the buffer size makes it accept a write only partially
+    ('payload:raw-lf-then-3000', 'print("x\n' + 'a' * 3000 + '")'),                                   # raw LF inside a string constant
+    ('payload:escaped-lf-then-3000', 'print("x\\n' + 'a' * 3000 + '")'),
+    ('payload:many-raw-lines', 'print("' + ('line\n' * 40) + '"); print("' + 'b' * 1500 + '")'),
+    ('payload:lf-early-then-200-prints', 'print("~\\n", 10); ' + '; '.join('print("~ and some padding text to make the image long\\n", %d)' % (1000 + i) for i in range(200))),   # 0x0A as the value of an integer constant
+    ('payload:big-method', 'function f(a) -> begin ' + '; '.join('print("~\\n", a + %d)' % i for i in range(120)) + ' end; f(1)'),
+    ('payload:utf8', 'print("é世😀\n' + 'é' * 700 + '\n' + '世' * 500 + '")'),
+    ('payload:600-globals', '; '.join('let g%d = %d' % (i, i) for i in range(600)) + '; print("~\\n", g10)'),                                   # 0x0A inside the globals table (index 10)
+    ('payload:class-300-members', 'let o = object begin ' + '; '.join('let f%d = %d' % (i, i) for i in range(300)) + ' end; print("~\\n", o.f10)'),
 ]
 
 
@@ -48,8 +53,13 @@ def c08(tier):
         probe = run_harness(exe, 'sink', [{'id': 0, 'bytes': b}], wd, tag='c08p%d' % i, jobs=1)[0]
         ncalls = len(probe.get('calls', []))
         maxreq = max([c['len'] for c in probe.get('calls', [])] or [1])
-        scheds = [{'limit': k} for k in range(1, min(maxreq, 12) + 1)] + [{'limit': k} for k in sorted({maxreq - 1, maxreq // 2, 64, 1000}) if k > 12 and k < maxreq]
-        js = list(range(ncalls)) if (ncalls <= 150 or tier == 'thorough') else sorted(rng.sample(range(ncalls), 150))
+        big = len(b) > 2500 and tier != 'thorough'       # large images: a thin set of schedules in the quick tier (the CLI part below is what they are for)
+        if big:
+            scheds = [{'limit': k} for k in (64, 1000) if k <= maxreq]      # (a limit of 1 on a 13 KB image means 13 000 calls: thorough tier only)
+            js = sorted(rng.sample(range(ncalls), min(ncalls, 12)))
+        else:
+            scheds = [{'limit': k} for k in range(1, min(maxreq, 12) + 1)] + [{'limit': k} for k in sorted({maxreq - 1, maxreq // 2, 64, 1000}) if k > 12 and k < maxreq]
+            js = list(range(ncalls)) if (ncalls <= 150 or tier == 'thorough') else sorted(rng.sample(range(ncalls), 150))
         scheds += [{'short_at': j, 'short_n': 1} for j in js]
         scheds += [{'interrupt_at': j} for j in js[::max(1, len(js) // 10)]]
         scheds += [{'zero_at': j} for j in js[::max(1, len(js) // 6)]] + [{'fail_at': j} for j in js[::max(1, len(js) // 6)]]
@@ -98,7 +108,7 @@ def c08(tier):
     log('[c08] TraceSink done %.0fs' % (time.time() - chk.t0))
     # the real stdout: redirect and pipe versus -o
     obs = []
-    for i, p in enumerate(progs[:tier_sizes(tier, 12, 120)]):
+    for i, p in enumerate(progs[:tier_sizes(tier, 14, 120)]):
         if 'bytes' not in outs[i]:
             continue
         src = os.path.join(wd, 'r%d.fml' % i)
